@@ -263,7 +263,7 @@ class World:
               'inode_reused_same_instance', 'rewrites_while_unready',
               'tombstones_written', 'tombstones_from_nuke',
               'tombstones_processed', 'monitor_moved_link',
-              'sync_with_cleanup_and_running', 'mgr_died', 'settled_checks',
+              'sync_with_cleanup_and_running', 'settled_checks',
               'events_ignored_inactive', 'containers_started',
               'reconfigured_existing_dir', 'sync_made_cleanup_link')
     FAULTS = ('configure_setup_error', 'configure_generic_error',
@@ -304,6 +304,7 @@ class World:
         self.links = {}
         self.writer_ready = False
         self.unique_name_collisions = 0
+        self.mgr_died = 0
 
         # provenance: which real function performed which link operation
         self.hist = {}             # cname -> [dict(ev, where, by)]
@@ -836,7 +837,7 @@ class World:
         self.log.ev('read', len(events))
 
     def _mgr_died(self, why):
-        self.probes['mgr_died'] += 1
+        self.mgr_died += 1
         self.log.ev('mgr-died', why)
         self.mgr = None
         self._close_watch()
@@ -937,7 +938,8 @@ class World:
                 if rec['inst'] == inst and
                 rec['key'] == self._uid_key(self.cache[inst])
                 else 'via-unique-name-collision-other')
-        self.log.ev('cache-put', inst, gen, ino, bad, uname)
+        self.log.ev('cache-put', inst, gen, ino, bad, uname,
+                    self._uid_key(self.cache[inst])[0])
 
     def op_del(self, op):
         inst = op['inst']
@@ -1132,7 +1134,8 @@ OP_WEIGHTS = [
 ]
 
 SCENARIOS = ('regen_restart', 'batch', 'rewrite', 'finish_restart', 'stale',
-             'between', 'regen_node_restart', 'double_terminate')
+             'between', 'regen_node_restart', 'double_terminate',
+             'finish_before_stale_created')
 
 
 class Generator:
@@ -1372,6 +1375,25 @@ class Generator:
         ops.append(self._mgr('settle'))
         return ops
 
+    def s_finish_before_stale_created(self, world):
+        # the synchronisation configures X, X finishes and is handed to
+        # cleanup, then the created event of X (queued behind READY) arrives
+        inst = self._inst(world, cached=False)
+        if inst is None:
+            inst = self._inst(world)
+            ops = [{'op': 'del', 'inst': inst}]
+        else:
+            ops = []
+        if world.mgr is None:
+            ops.append({'op': 'mgr_restart'})
+        ops += [{'op': 'unready'}, self._mgr('settle'), {'op': 'ready'},
+                self._put(world, inst, bad=False), self._step(1),
+                self.g_finish(world, inst)]
+        if self.rng.random() < 0.8:
+            ops.append({'op': 'monitor_step'})
+        ops.append(self._mgr('settle'))
+        return ops
+
     def s_between(self, world):
         # an event for X between the delete and the create of Y
         inst, ops = self._running_first(world)
@@ -1538,6 +1560,8 @@ class NodeSim(enginemod.Engine):
         ]
 
     def quick_runs(self, prop):
+        # ~15 s on 16 cores; every unlisted signature adds ~2.5 s (minimise,
+        # fresh-interpreter replay)
         return 1600
 
     def make_config(self, prop, tier, rng):
@@ -1631,7 +1655,8 @@ class NodeSim(enginemod.Engine):
             res.faults = world.faults
             res.probes = world.probes
             res.extra = {
-                'unique_name_collisions': world.unique_name_collisions}
+                'unique_name_collisions': world.unique_name_collisions,
+                'manager_died_in_handler': world.mgr_died}
             res.fps = world.fps
             res.nontrivial = world.nontrivial
             res.trace_fp = logmod.fingerprint(executed)
